@@ -148,7 +148,20 @@ def theorems_in(relfile):
     return re.findall(r'^\s*(?:Theorem|Example)\s+([A-Za-z0-9_\']+)', txt, re.M)
 
 
-def coq_props(pid, extra_targets=()):
+def run_translators(names):
+    """Run the named translators (tools/translate/<name>.py: generate()) against
+    the repository under test.  Returns a list of (name, error) for failures."""
+    import importlib
+    errs = []
+    for n in names:
+        try:
+            importlib.import_module('translate.' + n).generate()
+        except Exception as e:          # fail closed: the caller reports a broken tie
+            errs.append((n, '%s: %s' % (type(e).__name__, e)))
+    return errs
+
+
+def coq_props(pid, extra_targets=(), translators=()):
     """Build everything props/<pid>.v depends on, then compile props/<pid>.v
     itself afresh (so that `Print Assumptions` is printed on every run).
 
@@ -161,6 +174,11 @@ def coq_props(pid, extra_targets=()):
     if bad:
         res['error'] = 'forbidden constructs in the development: ' + '; '.join(bad)
         res['broken'] = 'scan_forbidden'
+        return res
+    terrs = run_translators(translators)
+    if terrs:
+        res['error'] = 'translator failed (source outside the supported subset): ' + '; '.join('%s: %s' % e for e in terrs)
+        res['broken'] = 'translator:' + ','.join(e[0] for e in terrs)
         return res
     vo = rel + 'o'
     try:
@@ -199,6 +217,23 @@ def coq_props(pid, extra_targets=()):
     res['ok'] = True
     res['discharged'] = len(res['theorems'])
     return res
+
+
+def coqchk(pid, timeout=1500):
+    """Re-check props/<pid>.vo and everything it depends on with the
+    independent checker; returns (ok, axioms, summary)."""
+    rc, out = sh(['coqchk', '-o', '-Q', '.', 'PA', 'PA.props.%s' % pid], cwd=COQ, timeout=timeout)
+    ok = rc == 0 and 'Modules were successfully checked' in out
+    axioms = []
+    m = re.search(r'\* Axioms:(.*?)\n\s*\n\* Constants', out, re.S)
+    if m:
+        axioms = [l.strip() for l in m.group(1).splitlines() if l.strip() and l.strip() != '<none>']
+    bad = []
+    for label in ('type-in-type', 'unsafe (co)fixpoints', 'positivity is assumed'):
+        mm = re.search(r'%s:\s*(.*?)\n\s*\n' % re.escape(label), out + '\n\n', re.S)
+        if mm and mm.group(1).strip() not in ('<none>', ''):
+            bad.append(label + ': ' + mm.group(1).strip()[:200])
+    return ok and not bad, axioms, (out[-600:] if not ok else 'ok') + ('; '.join(bad))
 
 
 HEADER_CASES = 'From Coq Require Import List ZArith QArith Bool.\nImport ListNotations.\n'
